@@ -79,6 +79,37 @@ def java_case(rng, cid):
     return c
 
 
+def java_coverage_case(cid="C18-coverage"):
+    """fixed: struct nesting two levels deep with a coinciding member name, two small structs in
+    one bundle, an out struct followed by buffers, several buffers per direction, objects in both
+    directions with different counts, primitive arrays of every element type"""
+    def P(d, t, n, arr=None):
+        return {"dir": d, "type": t, "arr": arr, "name": n}
+
+    def M(name, params):
+        return {"k": "method", "name": name, "optional": False, "doc": None, "params": params}
+
+    def S(name, fields):
+        return {"k": "struct", "name": name, "fields": [{"type": t, "count": 1, "name": n} for t, n in fields]}
+    nodes = [S("Inner", [("uint32", "x"), ("uint32", "y")]),
+             S("Mid", [("Inner", "n"), ("uint32", "z"), ("uint32", "w")]),
+             S("Outer", [("Inner", "n"), ("Mid", "m")]),
+             S("Deep", [("uint64", "id"), ("Outer", "o"), ("uint64", "tail")]),
+             {"k": "interface", "name": "IDemo", "base": None, "members": [
+                 M("put", [P("in", "Outer", "o")]), M("get", [P("out", "Outer", "o")]),
+                 M("deep", [P("in", "Deep", "d"), P("out", "Deep", "e")]),
+                 M("mid_small", [P("in", "Mid", "m"), P("in", "uint16", "k"), P("out", "Mid", "r"), P("out", "uint8", "q")]),
+                 M("span", [P("in", "Inner", "from"), P("in", "Inner", "to"), P("out", "uint32", "len")]),
+                 M("span_out", [P("in", "uint32", "seed"), P("out", "Inner", "a"), P("out", "Inner", "b")]),
+                 M("origin_then_read", [P("out", "Inner", "origin"), P("out", "buffer", "data"), P("out", "buffer", "more")]),
+                 M("two_bufs", [P("in", "buffer", "a"), P("in", "buffer", "b"), P("in", "uint32", "x"), P("in", "buffer", "c"), P("out", "buffer", "d")]),
+                 M("split", [P("in", "IDemo", "parent"), P("in", "uint32", "n"), P("out", "IDemo", "first"), P("out", "IDemo", "second")]),
+                 M("open", [P("in", "uint32", "id"), P("out", "interface", "handle")]),
+                 M("read", [P("in", "uint32", "first"), P("in", "uint32", "count"), P("out", "uint32", "data", "unbounded")]),
+             ] + [M(f"arr_{t}", [P("in", t, "a", "unbounded"), P("out", t, "b", "unbounded")]) for t in ("uint8", "int16", "uint32", "int64", "float32", "float64")]}]
+    return {"id": cid, "files": [{"path": "main.idl", "nodes": nodes}], "main": "main.idl", "incdirs": []}
+
+
 def run(ctx, prop):
     gate = C.lean_gate(prop, ctx.tier)
     ctx.setup()
@@ -96,6 +127,7 @@ def run(ctx, prop):
         rc_ = json.load(open(fpath))
         rc_.pop("finding", None)
         work.append(("gen", rc_))
+    work.append(("gen", java_coverage_case()))
     for i in range(n):
         work.append(("gen", java_case(ctx.rng, f"C18-{ctx.seed}-{i}")))
     for origin, case in work:
